@@ -199,14 +199,10 @@ theorem groupTextlines_spec (p : LAParams) (pageBB : BB)
     ∧ ((groupTextlines p pageBB lines).map (·.bid)).Nodup
     ∧ ∀ b ∈ groupTextlines p pageBB lines,
         b.index = -1 ∧ b.lines ≠ [] ∧ b.bb = bbOfList (b.lines.map (·.bb)) ∧ b.isEmpty = false := by
-  set plane := mkPlane pageBB (lines.zipIdx.map fun (x : Line × Nat) => x.1.pobj x.2) with hplane
-  set nbOf : Nat → List Nat := fun i =>
-    match lines[i]? with
-    | some l => neighbors p.line_margin plane lines l
-    | none => [] with hnbOf
+  set nbOf : Nat → List Nat := nbOfLines p pageBB lines with hnbOf
   have hnb : ∀ i, ∀ j ∈ nbOf i, j < lines.length := by
     intro i j hj
-    simp only [hnbOf] at hj
+    simp only [hnbOf, nbOfLines] at hj
     split at hj
     · exact neighbors_lt _ _ _ _ j hj
     · simp at hj
@@ -215,11 +211,11 @@ theorem groupTextlines_spec (p : LAParams) (pageBB : BB)
     · left
       intro i hi
       have hget : lines[i]? = some lines[i] := List.getElem?_eq_getElem hi
-      simp only [hnbOf, hget]
+      simp only [hnbOf, nbOfLines, hget]
       exact self_neighbor _ hr pageBB hp lines hne i _ hget
     · right
       intro i
-      simp only [hnbOf]
+      simp only [hnbOf, nbOfLines]
       split
       · rename_i l hl
         exact neighbors_nil_of_neg _ (by grind) _ _ _ (hne l (List.mem_of_getElem? hl))
@@ -339,15 +335,11 @@ theorem groupTextlines_uniform (p : LAParams) (pageBB : BB)
     (hp : pageBB.x0 ≤ pageBB.x1 ∧ pageBB.y0 ≤ pageBB.y1) (lines : List Line)
     (hne : ∀ l ∈ lines, l.isEmpty = false) :
     ∀ b ∈ groupTextlines p pageBB lines, ∀ l ∈ b.lines, l.vertical = b.vertical := by
-  set plane := mkPlane pageBB (lines.zipIdx.map fun (x : Line × Nat) => x.1.pobj x.2) with hplane
-  set nbOf : Nat → List Nat := fun i =>
-    match lines[i]? with
-    | some l => neighbors p.line_margin plane lines l
-    | none => [] with hnbOf
+  set nbOf : Nat → List Nat := nbOfLines p pageBB lines with hnbOf
   set cls : Nat → Bool := fun i => (lines[i]?.map (·.vertical)).getD false with hclsdef
   have hnb : ∀ i, ∀ j ∈ nbOf i, j < lines.length := by
     intro i j hj
-    simp only [hnbOf] at hj
+    simp only [hnbOf, nbOfLines] at hj
     split at hj
     · exact neighbors_lt _ _ _ _ j hj
     · simp at hj
@@ -356,18 +348,18 @@ theorem groupTextlines_uniform (p : LAParams) (pageBB : BB)
     · left
       intro i hi
       have hget : lines[i]? = some lines[i] := List.getElem?_eq_getElem hi
-      simp only [hnbOf, hget]
+      simp only [hnbOf, nbOfLines, hget]
       exact self_neighbor _ hr pageBB hp lines hne i _ hget
     · right
       intro i
-      simp only [hnbOf]
+      simp only [hnbOf, nbOfLines]
       split
       · rename_i l hl
         exact neighbors_nil_of_neg _ (by grind) _ _ _ (hne l (List.mem_of_getElem? hl))
       · rfl
   have hcls : ∀ i, ∀ j ∈ nbOf i, cls j = cls i := by
     intro i j hj
-    simp only [hnbOf] at hj
+    simp only [hnbOf, nbOfLines] at hj
     split at hj
     · rename_i l hl
       have := neighbors_same_class _ _ _ _ j hj
